@@ -241,3 +241,16 @@ Theorem C03_fuel_is_never_decisive :
   (forall k n, (40 <= k)%nat -> n < two64 -> Num.digits_fuel k n [] = Num.dec_digits n).
 Proof. split; [exact FuelIndep.render_w_any_fuel|split; [exact FuelIndep.scalar_str_w_any_fuel|split; [exact FuelIndep.arr_str_loop_any_fuel|split; [exact FuelIndep.esc_index_loop_any_fuel|split; [exact FuelIndep.rd_words_any_fuel|exact FuelIndep.dec_digits_any_fuel_u64]]]]]. Qed.
 Print Assumptions C03_fuel_is_never_decisive.
+
+(* ---- the crate's other renderer, `impl Display for Value` (value.rs; model ValueApi.v, all statements in Props/ValueApi.v):
+   on values whose strings and keys need no escape that the two spell differently (display_safe: see ValueApi.v) it prints
+   exactly what to_string prints for the encoding.  Outside that class Display is not a JSON printer (a key is written raw:
+   ValueApi_display_differs); no listed property speaks about it. *)
+From JB Require ValueApi ValueApiProofs.
+Theorem C03_display_prints_what_to_string_prints : forall pf v, wfb v = true -> top_ok v -> ValueApi.display_safe v = true ->
+  to_string_w' pf (enc v) = Ok (ValueApi.display pf (normalise v)) /\ ValueApi.display pf v = to_string_t pf v.
+Proof.
+  intros pf v Hw Ht Hs. split; [exact (ValueApiProofs.display_is_to_string_of_the_encoding pf v Hw Ht Hs)|
+                                exact (ValueApiProofs.display_agrees_with_to_string pf v Hs)].
+Qed.
+Print Assumptions C03_display_prints_what_to_string_prints.
